@@ -859,3 +859,23 @@ func foundNotRejected(fn *ssa.Function, m ssa.Value, also ...ssa.Instruction) []
 	})
 	return bad
 }
+
+// iterationSkips: can one turn of the innermost loop round sink — from a body entry back to the
+// header — do without the sink? (Leaving the loop is not a skip here: use loopSkip when an
+// element of a collection must not be passed over on the way out either.)
+func iterationSkips(fn *ssa.Function, sink ssa.Instruction) (ssa.Instruction, bool) {
+	h := loopHeaders(fn)[sink.Block()]
+	if h == nil {
+		return nil, false
+	}
+	body := loopBody(h)
+	for _, s := range h.Succs {
+		if !body[s] || s == h {
+			continue
+		}
+		if _, found := existsPath(pathQuery{from: point{s, 0}, avoid: func(x ssa.Instruction) bool { return x == sink }, edgeOK: notErrorEdge, stopAt: func(x ssa.Instruction) bool { return !body[x.Block()] }, target: func(x ssa.Instruction) bool { return x != sink && x.Block() == h }}); found {
+			return s.Instrs[0], true
+		}
+	}
+	return nil, false
+}
